@@ -255,9 +255,15 @@ func (n *node) RouteSendEvent(from gen.PID, token gen.Ref, options gen.MessageOp
 
 	consumers := n.targetManager.GetConsumersForTarget(message.Event)
 	remote := make(map[gen.Atom]bool)
+	// a process can be there twice (it has a link and a monitor on this event)
+	served := make(map[gen.PID]bool)
 	// local delivery
 	for _, pid := range consumers {
 		if pid.Node == n.name {
+			if served[pid] {
+				continue
+			}
+			served[pid] = true
 			n.sendEventMessage(from, pid, options.Priority, message)
 			continue
 		}
